@@ -20,7 +20,20 @@ func scriptCorpus(c *Ctx, nRandom int, swEvery, exEvery int) (progs []*Prog, src
 		progs = append(progs, p)
 		srcs = append(srcs, RenderProg(p, Style{R: r, Parens: r.Chance(1, 3), Layout: r.Intn(3), EmptyParen: true}))
 	}
-	files, ok := runGenModule(c, "GenSwitch", map[string]int{"MaxCases": 3}, "switches.ndjson")
+	// the exhaustive small-program family (GenCtl.tla): all of one.ndjson, a slice of nest.ndjson
+	fam, ok := cachedGenModule(c, "GenCtl", map[string]int{"Level": 2}, "one.ndjson", "nest.ndjson")
+	if !ok {
+		return nil, nil, false
+	}
+	nestEvery := 24
+	if !c.Quick() {
+		nestEvery = 2
+	}
+	for _, p := range append(ctlPrograms(c, fam["one.ndjson"], "o", 1, 0), ctlPrograms(c, fam["nest.ndjson"], "n", nestEvery, c.Seed)...) {
+		progs = append(progs, p)
+		srcs = append(srcs, RenderProg(p, Style{R: r}))
+	}
+	files, ok := cachedGenModule(c, "GenSwitch", map[string]int{"MaxCases": 3}, "switches.ndjson")
 	if !ok {
 		return nil, nil, false
 	}
